@@ -111,6 +111,25 @@ fn variants(s: &Sprite, plan: &Plan, enc: &Encoded, t: &mut Tape) -> Vec<(&'stat
             v.push(("tileset-not-embedded", format!("tileset#{} flags={}", i, flags), encode(&s2, plan).bytes));
         }
     }
+    // a second Tileset chunk that re-defines an existing id as external-only (no embedded pixels), right after the
+    // original and at the end of the first frame
+    if !s.tilesets.is_empty() {
+        let pieces = super::robust::to_pieces(enc);
+        for (ti, ts) in s.tilesets.iter().enumerate().take(3) {
+            let mut ext = ts.clone();
+            ext.flags = 1;
+            ext.ext = (1, 1);
+            ext.pixels = vec![];
+            let c = finish_chunk(tileset_chunk(&ext, 6, &mut None), 0, &mut Rng(1)).bytes;
+            let first = &pieces.frames[0].1;
+            let after = first.iter().enumerate().filter(|(_, ch)| ch.len() >= 10 && ch[4..6] == 0x2023u16.to_le_bytes() && ch[6..10] == ts.id.to_le_bytes()).map(|(i, _)| i + 1).next();
+            for pos in [after, Some(first.len())].into_iter().flatten() {
+                let mut p = pieces.clone();
+                p.frames[0].1.insert(pos, c.clone());
+                v.push(("tileset-not-embedded", format!("tileset#{} (id {}) re-defined as external-only at chunk position {}", ti, ts.id, pos), super::robust::assemble(&p, true)));
+            }
+        }
+    }
     // colour profile chunk: ICC, or any type with the fixed-gamma flag, at every chunk position
     let pieces = super::robust::to_pieces(enc);
     // a Tags chunk carrying an unknown direction in a frame after the first (where a reader may ignore tags)
